@@ -288,6 +288,7 @@ class Ctx:
         self.events = []
         self.inputs = {}           # declared input variables name -> z3 var
         self.deferred = []
+        self.exact = {}            # input name -> exact rational value of each shadow sample (pinned-sample queries)
         self.mask = _np.ones(K_SAMPLES, dtype=bool)   # samples known to satisfy the path so far
         global SAMPLE_RNG
         SAMPLE_RNG = _np.random.default_rng(12345 + 7 * getattr(self, 'sample_seed', 0))
@@ -1211,6 +1212,57 @@ def explore(fn, max_paths=64, on_path=None, roots=None):
             if not forced:
                 stack.append((full[:i] + [(not d, True)], seed_env))
     return out, truncated
+
+
+def exact_samples(name, fv, lo=None, hi=None):
+    """quantise shadow samples to short rationals inside [lo, hi], remember them for pinned-sample queries; -> float array"""
+    ex = []
+    for x in fv:
+        x = builtins.float(x)
+        if not _np.isfinite(x):
+            ex.append(None)
+            continue
+        if abs(x) >= 64:
+            e = F(int(builtins.float(f"{x:.3g}")))
+        elif abs(x) >= 1e-3:
+            e = F(int(round(x * 4096)), 4096)
+        else:
+            e = F(x).limit_denominator(10 ** 12)
+        if lo is not None and e < F(lo):
+            e = F(lo)
+        if hi is not None and e > F(hi):
+            e = F(hi)
+        ex.append(e)
+    CTX.exact[name] = ex
+    return _np.array([builtins.float(e) if e is not None else _np.nan for e in ex])
+
+
+def sphere_samples(names, g):
+    """rational points on the unit sphere near the columns of g (n x K, unit columns): inverse stereographic projection
+    of a coarse rational vector; remembered per coordinate name; -> float array n x K"""
+    n, K = g.shape
+    out = _np.empty((n, K))
+    exs = [[None] * K for _ in range(n)]
+    for k in range(K):
+        x = g[:, k]
+        if not _np.all(_np.isfinite(x)):
+            out[:, k] = x
+            continue
+        # project from the pole opposite to the largest coordinate (keeps t small)
+        j = int(_np.argmax(_np.abs(x)))
+        sgn = 1 if x[j] >= 0 else -1
+        den = 1.0 + abs(x[j])
+        t = [F(int(round(builtins.float(x[i]) / den * 64)), 64) for i in range(n) if i != j]
+        tt = sum(a * a for a in t)
+        xj = sgn * (1 - tt) / (1 + tt)
+        rest = [2 * a / (1 + tt) for a in t]
+        vals = rest[:j] + [xj] + rest[j:]
+        for i in range(n):
+            exs[i][k] = vals[i]
+            out[i, k] = builtins.float(vals[i])
+    for i, nm in enumerate(names):
+        CTX.exact[nm] = exs[i]
+    return out
 
 
 def seeded_samples(name, default):
